@@ -31,6 +31,25 @@ def per_property():
         names = [n.split('.')[-1] for n in common.theorems_in(props_file)]
         model = m.get('model_files', '')
         out.append('*Proved (theorems of `lean/Props/%s.lean`, %d):* %s.\n' % (pid, len(names), ', '.join('`%s`' % n for n in names)))
+        kinds = m.get('theorem_kinds')
+        if kinds:
+            # the owner's classification: which theorems carry content and which restate a definition, are a
+            # one-line corollary, or decide a fact about a generated/literal table
+            label = {'content': 'content-bearing (induction / invariant / refinement / round trip / tie to generated source tables)',
+                     'spec_equation': 'spec equations (restate one arm of a model definition; no independent content)',
+                     'corollary': 'one-line corollaries of another listed theorem',
+                     'table_check': 'facts decided over a generated or literal table'}
+            seen = set()
+            parts = []
+            for k in ('content', 'spec_equation', 'corollary', 'table_check'):
+                ns = [n for n in kinds.get(k, []) if n in names]
+                seen.update(ns)
+                if ns:
+                    parts.append('%d %s: %s' % (len(ns), label[k], ', '.join('`%s`' % n for n in ns)))
+            rest = [n for n in names if n not in seen]
+            if rest:
+                parts.append('%d not classified: %s' % (len(rest), ', '.join('`%s`' % n for n in rest)))
+            out.append('*Of these:* ' + '; '.join(parts) + '.\n')
         out.append('*Claim.* ' + m['level_text'] + '\n')
         out.append('*Trusted / validated only.* ' + m['level_note'] + '\n')
         if model:
